@@ -398,6 +398,14 @@ func runC12(r *Report) {
 		if c.enc {
 			es := encoders16(f)
 			if len(es) == 0 {
+				// the prefix encode may live in a helper (putRecord(dst, payload)-style split)
+				for _, g := range samePkgReach(f, 2) {
+					if g != f && g.Parent() == nil {
+						es = append(es, encoders16(g)...)
+					}
+				}
+			}
+			if len(es) == 0 {
 				r.Fail("R-C12-4", f.Pos(), "no 2-byte length-prefix encode (buf[i]=byte(n>>8); buf[i+1]=byte(n)) found: width or shape of the record prefix changed", c.fn, "encode16")
 			}
 			for _, e := range es {
@@ -406,6 +414,14 @@ func runC12(r *Report) {
 		}
 		if c.dec {
 			ds, vals := decoders16(f)
+			if len(ds) == 0 {
+				for _, g := range samePkgReach(f, 2) {
+					if g != f && g.Parent() == nil {
+						d2, v2 := decoders16(g)
+						ds, vals = append(ds, d2...), append(vals, v2...)
+					}
+				}
+			}
 			// only decodes that feed a length (used in a comparison or slice bound) matter; DNS parsing helpers are other functions
 			if len(ds) == 0 {
 				r.Fail("R-C12-4", f.Pos(), "no 2-byte length-prefix decode (int(b[i])<<8 | int(b[i+1])) found", c.fn, "decode16")
@@ -424,7 +440,7 @@ func runC12(r *Report) {
 				tv := tc.(ssa.Value)
 				stopped := false
 				Instrs(g, func(in ssa.Instruction) {
-					if d, ok := in.(*ssa.Defer); ok && CalleeOf(d).Is("Ticker.Stop", "Timer.Stop") && Recv(d) == tv {
+					if d, ok := in.(*ssa.Defer); ok && CalleeOf(d).Is("Ticker.Stop", "Timer.Stop") && (Recv(d) == tv || loadOfCellHolding(Recv(d), tv)) {
 						stopped = true
 					}
 				})
@@ -656,4 +672,23 @@ func retains(v ssa.Value, depth int, seen map[ssa.Value]bool) string {
 		}
 	}
 	return ""
+}
+
+// loadOfCellHolding: v is a load of a local variable cell (a variable captured by a closure
+// lives in an Alloc) into which x is stored.
+func loadOfCellHolding(v, x ssa.Value) bool {
+	u, ok := stripValue(v).(*ssa.UnOp)
+	if !ok || u.Op != token.MUL {
+		return false
+	}
+	a, ok := u.X.(*ssa.Alloc)
+	if !ok {
+		return false
+	}
+	for _, st := range storesTo(a) {
+		if st.Val == x {
+			return true
+		}
+	}
+	return false
 }
